@@ -279,8 +279,10 @@ def build(P):
     P.contract(fp_results_contract(), extra_contracts={idx.lookup(f"{OR}:DynamicObjectWithPerceptionResult.__init__").fq: result_ctor_contract()})
     ctor = result_ctor_contract()
     # ---------------------------------------------------------------- get_object_results
+    # (C01 needs of the first stage only that a cell it may pick is a matchable pair -- same frame, within the radius; WHICH matchable pairs the first stage
+    #  may pick, i.e. the label stage, is C02's statement and C02's invariant)
     t1 = (f"rows(masked_scores) == len({EW}) and cols(masked_scores) == len({GW}) and rows(score_table) == len({EW}) and cols(score_table) == len({GW}) and "
-          f"forall(r, 0, len({EW}), forall(c, 0, len({GW}), tnan(masked_scores, r, c) == (not ({valid(f'{EW}[r]', f'{GW}[c]')} and {compat(f'{EW}[r]', f'{GW}[c]')})) and "
+          f"forall(r, 0, len({EW}), forall(c, 0, len({GW}), implies(not tnan(masked_scores, r, c), {valid(f'{EW}[r]', f'{GW}[c]')}) and "
           f"tnan(score_table, r, c) == (not {valid(f'{EW}[r]', f'{GW}[c]')})))")
     t2 = (f"rows(rest_scores) == len({EW}) and cols(rest_scores) == len({GW}) and "
           f"forall(r, 0, len({EW}), forall(c, 0, len({GW}), tnan(rest_scores, r, c) == (not {valid(f'{EW}[r]', f'{GW}[c]')})))")
